@@ -205,6 +205,9 @@ impl Search {
             }
         }
 
+        // The search is over once its move is announced: clear the flag first so that a go
+        // arriving right after the bestmove line is not refused
+        self.stop();
         #[cfg(rce_verif)]
         verif::schedule_point("BEFORE_BESTMOVE");
         // No iteration finished (e.g. a tiny node or time budget): fall back to any legal move
